@@ -318,28 +318,29 @@ func checkGenerate(c *Ctx, m *gensignModel, h *types.Named, gen *ssa.Function) {
 			}
 		}
 		okv := extractOfV(lk, 1)
-		// the lookup may sit in a helper of Generate whose failure is Generate's failure
-		lkf := w.factsOf(lk.Parent())
 		isT, known := f.KnownBool(req.Block(), okv)
-		if req.Parent() != gen {
-			isT, known = w.factsOf(req.Parent()).KnownBool(req.Block(), okv)
-		}
 		c.Check(known && isT, "R1.csr", hn+"|request built only when a key slot is configured", w.Pos(req.Pos()), "must-fact lookup ok", "a request can be built although no key slot is configured for the algorithm (silent default)")
 		n := 0
-		if lk.Parent() != gen && !w.failurePropagates(gen, lk.Parent()) {
-			c.Bad("R1.csr", hn+"|missing key slot refused with a configuration error", w.Pos(lk.Pos()), "the failure of "+shortFn(lk.Parent())+", which looks the key slot up, is not Generate's failure")
-		}
-		for _, r := range liveReturns(lk.Parent()) {
-			if v, known := lkf.KnownBool(r.Block(), okv); known && !v {
-				n++
-				good := true
-				for _, lf := range w.Leaves(r.Results[errorResultIndex(lk.Parent())], r) {
-					k, isK := errKindOf(lf.Val)
-					if !isK || k != m.Kinds["HandlerConfErr"] {
-						good = false
+		refusals := func(fn *ssa.Function) {
+			for _, r := range liveReturns(fn) {
+				if v, known := f.KnownBool(r.Block(), okv); known && !v {
+					n++
+					good := true
+					for _, lf := range w.Leaves(r.Results[errorResultIndex(fn)], r) {
+						k, isK := errKindOf(lf.Val)
+						if !isK || k != m.Kinds["HandlerConfErr"] {
+							good = false
+						}
 					}
+					c.Check(good, "R1.csr", hn+"|missing key slot refused with a configuration error", w.Pos(r.Pos()), "*Error{HandlerConfErr}", "a missing key slot is not refused with a handler-configuration error")
 				}
-				c.Check(good, "R1.csr", hn+"|missing key slot refused with a configuration error", w.Pos(r.Pos()), "*Error{HandlerConfErr}", "a missing key slot is not refused with a handler-configuration error")
+			}
+		}
+		refusals(gen)
+		if h := lk.Parent(); n == 0 && h != gen && errorResultIndex(h) >= 0 {
+			// the lookup sits in a helper that refuses itself: its failure is Generate's failure, handed back unchanged
+			if w.failurePropagates(gen, h) {
+				refusals(h)
 			}
 		}
 		c.Floor("R1.csr", n, 1, "refusal return for a missing key slot")
